@@ -4,6 +4,7 @@ TIER="$1"; shift
 IDS="$*"
 [ -z "$IDS" ] && IDS="C01 C02 C03 C04 C05 C06 C07 C08 C09 C10 C11 C12 C13 C14 C15 C16 C17 C18 C19 C20"
 cd /verif
+export VERIF_WITNESS_STRICT=${VERIF_WITNESS_STRICT:-1}   # development runs stop on a disagreement between symbolic and replay oracle
 for id in $IDS; do
   S=$(date +%s)
   OUT=$(timeout ${RUN_ALL_TIMEOUT:-5400} ./check $id --tier $TIER 2>&1); RC=$?
